@@ -522,7 +522,7 @@ pub open spec fn distinct_rooms(rooms: Seq<Room>) -> bool { forall|i: int, j: in
             *final(self) == *old(self),
             // [one_definition_per_room_of_an_accepted_mutation]{C01,C10} the definitions an accepted mutation hands on for the in-memory room table are of pairwise different rooms: each is the stored room changed by ONE entry, so two of the same room could not both be kept
             r is Ok ==> distinct_rooms(r->Ok_0@),
-            // [every_entity_of_an_accepted_mutation_was_validated]{C01} a mutation is accepted only if every one of its top-level entities passed validate_entity_mutation (no entity is skipped, the first refusal refuses the whole mutation); nested entities: see sub_entities_validated
+            // [every_entity_of_an_accepted_mutation_was_validated]{C01,C12} a mutation is accepted only if every one of its top-level entities passed validate_entity_mutation (no entity is skipped, the first refusal refuses the whole mutation); nested entities: see sub_entities_validated
             r is Ok ==> mutation_validated(*old(self), *final(mutation_query)),
 //@ end
 
@@ -570,7 +570,7 @@ impl BufferedDatabaseWriter {
                 let mut mutation_query = mutation_query0;   // E9: `mut mutation_query` of the match arm
 //@ cut "for room in rooms" => "cut_collect_room_ids(&mut room_list, rooms);"
 //@ insert-each before-stmt "let _ = database_writer.send(query).await;"
-                            // [only_validated_mutations_reach_the_writer]{C01} a local mutation is handed to the writer only after validate_mutation accepted it, and it is the validated query that is handed over
+                            // [only_validated_mutations_reach_the_writer]{C01,C12} a local mutation is handed to the writer only after validate_mutation accepted it, and it is the validated query that is handed over
                             assert(mutation_validated(*auth, wm_query(query)));
 //@ spec
         requires rooms_wf(*old(auth)),
@@ -583,7 +583,7 @@ impl BufferedDatabaseWriter {
                 let mut mutation_query = mutation_query0;   // E9: `mut mutation_query` of the match arm
 //@ cut "for room in rooms" => "cut_collect_room_ids(&mut room_list, rooms);"
 //@ insert-each before-stmt "let _ = database_writer.send(query).await;"
-                            // [only_validated_streamed_mutations_reach_the_writer]{C01} a mutation of a mutation stream is handed to the writer only after validate_mutation accepted it
+                            // [only_validated_streamed_mutations_reach_the_writer]{C01,C12} a mutation of a mutation stream is handed to the writer only after validate_mutation accepted it
                             assert(mutation_validated(*auth, wm_query(query)));
 //@ spec
         requires rooms_wf(*old(auth)),
@@ -595,7 +595,7 @@ impl BufferedDatabaseWriter {
                 let mut deletion_query = deletion_query0;   // E9: `mut deletion_query` of the match arm
                 let ghost dq0 = deletion_query;
 //@ insert-each before-stmt "let _ = database_writer.send(query).await;"
-                        // [only_validated_deletions_reach_the_writer]{C01} a local deletion is handed to the writer only after validate_deletion accepted it, and it is the validated deletion that is handed over
+                        // [only_validated_deletions_reach_the_writer]{C01,C12} a local deletion is handed to the writer only after validate_deletion accepted it, and it is the validated deletion that is handed over
                         assert(exists|t: i64| deletion_ok(*auth, dq0, wm_deletion(query), t)) by { assert(wm_deletion(query) == deletion_query); }
 //@ spec
         requires rooms_wf(*old(auth)),
